@@ -9,6 +9,7 @@ import Statrs.Model.FHand
 import Statrs.Model.Empirical
 import Statrs.Model.SamplerDispatch
 import Statrs.Model.MVDispatch
+import Statrs.Model.RankDispatch
 namespace Statrs.Model.Dispatch
 open Statrs Statrs.Driver Statrs.Gen
 
@@ -103,7 +104,7 @@ def empTable : List (String × (List Arg → String)) := [
     | _ => "bad-args")]
 
 def table : List (String × (List Arg → String)) :=
-  Statrs.Model.MVDispatch.mvTable ++ Statrs.Model.SamplerDispatch.sampleTable ++ empTable ++ orderTable ++ genTable ++
+  Statrs.Model.MVDispatch.mvTable ++ Statrs.Model.SamplerDispatch.sampleTable ++ Statrs.Model.RankDispatch.rankTable ++ empTable ++ orderTable ++ genTable ++
   statEntries "min" (IterStatistics.min (α := Float)) ++
   statEntries "max" (IterStatistics.max (α := Float)) ++
   statEntries "abs_min" (IterStatistics.abs_min (α := Float)) ++
